@@ -246,7 +246,7 @@ def strat_op(tier):
              'strip_latcal': simple('strip_latcal'), 'filter': filt, 'relayout': relayout}
     # explicit weights (a drawn index into this list): reads are 1/3 of all draws; fill and filter frequent enough that
     # filter's precondition (no invalid sample) is met in a useful fraction of the histories
-    weighted = (['read'] * 12 + ['pad'] * 3 + ['crop'] * 3 + ['mask'] * 3 + ['fill'] * 3 + ['spike_clip'] + ['remove_piston'] * 2 +
+    weighted = (['read'] * 12 + ['pad'] * 3 + ['crop'] * 3 + ['mask'] * 3 + ['fill'] * 4 + ['spike_clip'] + ['remove_piston'] * 4 +
                 ['remove_tiptilt'] * 3 + ['remove_power'] * 3 + ['recenter'] * 2 + ['latcal'] * 2 + ['strip_latcal'] * 2 + ['filter'] * 3 +
                 ['relayout'] * 2 + ['fail'] * 5 + ['readout'] * 6)
     return st.sampled_from(weighted).flatmap(lambda n: table[n])
@@ -872,5 +872,5 @@ class IfgModel:
 
 CLAUSES = [
     MachineClause('history', IfgModel, strat_init, strat_op, steps={'quick': 25, 'thorough': 40},
-                  examples={'quick': 300, 'thorough': 1500}, shards={'quick': 6, 'thorough': 12}),
+                  examples={'quick': 400, 'thorough': 1500}, shards={'quick': 6, 'thorough': 12}),
 ]
